@@ -704,6 +704,97 @@ func TestC08CacheExpiry(t *testing.T) {
 	}
 }
 
+// TestC08Replaced: a file is replaced (same name, new content, modification time later by less
+// than a second, as a deploy script does) after a compressed variant of it was built and cached; once
+// the cache entry has expired every request, also one that accepts gzip, gets the new content.
+func TestC08Replaced(t *testing.T) {
+	rec := ev.New("replaced-file")
+	w := getWorld(t)
+	for ci, size := range []int{100, 3000, 20000} {
+		for _, sameLen := range []bool{true, false} {
+			name := fmt.Sprintf("/mut%d%v", size, sameLen)
+			fp := filepath.Join(w.root, name[1:])
+			v1 := fileContent(name+"v1", size)
+			n2 := size
+			if !sameLen {
+				n2 = size + 7
+			}
+			v2 := fileContent(name+"-v2", n2)
+			base := time.Date(2021, 3, 4, 5, 6, 7, 100e6, time.UTC)
+			write := func(c []byte, mt time.Time) {
+				if err := os.WriteFile(fp, c, 0o644); err != nil {
+					t.Fatal(err)
+				}
+				if err := os.Chtimes(fp, mt, mt); err != nil {
+					t.Fatal(err)
+				}
+			}
+			get := func(gz bool) ([]byte, string) {
+				req := "GET /slowgz" + name + " HTTP/1.1\r\nHost: example.com\r\n"
+				if gz {
+					req += "Accept-Encoding: gzip\r\n"
+				}
+				res := w.srv.Serve(sconn.New([][]byte{[]byte(req + "\r\n")}, sconn.EOF))
+				if res.Panic != nil {
+					return nil, fmt.Sprintf("panic: %v", res.Panic)
+				}
+				pr, err := wire.ReadResponse(res.Output, 0, "GET")
+				if err != nil || pr.Status != 200 {
+					return nil, fmt.Sprintf("no 200 response: %v %q", err, short(res.Output))
+				}
+				body := pr.Body
+				if wire.HasToken(pr.Headers, "Content-Encoding", "gzip") {
+					zr, err := gzip.NewReader(bytes.NewReader(body))
+					if err == nil {
+						body, err = io.ReadAll(zr)
+					}
+					if err != nil {
+						return nil, fmt.Sprintf("gzip body does not decode: %v", err)
+					}
+				}
+				return body, ""
+			}
+			fail := func(f string, a ...interface{}) {
+				msg := fmt.Sprintf("file of %d bytes, replacement same length=%v: ", size, sameLen) + fmt.Sprintf(f, a...)
+				ev.Fail(prop, "replaced-file", map[string]interface{}{"size": size, "same_length": sameLen}, msg)
+				t.Errorf("%s", msg)
+			}
+			rec.Case(true, ev.HashString(name), fmt.Sprintf("size-%d", size))
+			_ = ci
+			write(v1, base)
+			for _, gz := range []bool{true, false, true} {
+				if b, msg := get(gz); msg != "" {
+					fail("first version, gzip=%v: %s", gz, msg)
+				} else if !bytes.Equal(b, v1) {
+					fail("first version, gzip=%v: got %d bytes that are not the file", gz, len(b))
+				}
+			}
+			write(v2, base.Add(500*time.Millisecond)) // same second, later
+			time.Sleep(4 * shortCache)                // let the cache entries expire
+			for _, gz := range []bool{true, false, true} {
+				b, msg := get(gz)
+				// the old cache entry lives until the cleaner has run: poll (no timing verdict), a stale
+				// answer only counts when it persists for 4 s
+				for k := 0; k < 40 && msg == "" && !bytes.Equal(b, v2); k++ {
+					time.Sleep(100 * time.Millisecond)
+					b, msg = get(gz)
+				}
+				if msg != "" {
+					fail("after the replacement, gzip=%v: %s", gz, msg)
+				} else if !bytes.Equal(b, v2) {
+					what := "neither version"
+					if bytes.Equal(b, v1) {
+						what = "the previous content"
+					}
+					fail("after the file was replaced (mtime +500 ms) and the %v cache had expired, a request with gzip=%v still got %s (%d bytes) 4 s later", shortCache, gz, what, len(b))
+				}
+			}
+			os.Remove(fp)
+			os.Remove(fp + ".hertz.gz")
+		}
+	}
+}
+
 func TestC08Replay(t *testing.T) {
 	f := ev.ReplayFile()
 	if f == "" {
